@@ -94,7 +94,13 @@ pub fn replay(c: &Value) -> Option<(String, String)> {
     let texts = gen::strings(&['a', 'b', 'あ', '1'], 2, 4);
     // training is randomised (liblinear's rand(), hash-map order): a systematic defect shows up
     // again within a few attempts
-    (0..8).find_map(|_| check_case(&cfg, &corpus, &texts).1).map(|(k, w)| (sig(&k, &cfg, &corpus), w))
+    let stored = c["kind"].as_str().unwrap_or("").to_string();
+    (0..8).find_map(|_| check_case(&cfg, &corpus, &texts).1).map(|(k, w)| {
+        // which feature kinds carry non-zero weights varies between (randomised) trainings: any
+        // score mismatch reproduces a score mismatch
+        let k = if k.starts_with("score-") && stored.starts_with("score-") { stored.clone() } else { k };
+        (sig(&k, &cfg, &corpus), w)
+    })
 }
 
 pub fn configs(tier: Tier) -> Vec<Config> {
@@ -148,7 +154,7 @@ pub fn run(tier: Tier) -> ! {
                 chk.nontrivial(1);
             }
             if let Some((k, what)) = v {
-                chk.violation(sig(&k, cfg, corpus), what, json!({"cfg": cfg, "corpus": corpus}));
+                chk.violation(sig(&k, cfg, corpus), what, json!({"cfg": cfg, "corpus": corpus, "kind": k}));
             }
         }
     });
